@@ -47,8 +47,20 @@ def enc(a):
     return {"s": list(a.shape), "d": [x.item() for x in a.reshape(-1)]}
 
 
+_DEC = {}
+
+
 def dec(e, dtype=float):
-    return np.array(e["d"], dtype=dtype).reshape(tuple(e["s"]))
+    key = (id(e), dtype)
+    hit = _DEC.get(key)
+    if hit is not None and hit[0] is e:
+        return hit[1]
+    a = np.array(e["d"], dtype=dtype).reshape(tuple(e["s"]))
+    a.setflags(write=False)
+    if len(_DEC) > 4096:
+        _DEC.clear()
+    _DEC[key] = (e, a)
+    return a
 
 
 def prod(shape):
@@ -425,54 +437,80 @@ def orc_cat(name, part_name, parts):
     return Orc(inputs, fn)
 
 
-def apply_step(F, O, step):
-    """-> (F2, O2, contract, tags)"""
+def orc_step(O, step):
+    """the oracle side of a step (no funsor)"""
     op = step["op"]
     if op == "add":
-        G = build_leaf(step["leaf"])
-        OG = orc_leaf(step["leaf"])
-        F2 = (G + F) if step.get("side") == "left" else (F + G)
-        contract = "eager_add_gaussian_gaussian" if isinstance(F, Gaussian) and isinstance(G, Gaussian) else "add[Gaussian,other]"
-        return F2, orc_add(O, OG), contract, ["add"] + leaf_tags(step["leaf"])
+        return orc_add(O, orc_leaf(step["leaf"]))
     if op == "add_tensor":
-        T = build_tensor(step["tensor"])
-        return F + T, orc_add(O, orc_tensor(step["tensor"])), "add[Gaussian,Tensor]", ["add_tensor"]
+        return orc_add(O, orc_tensor(step["tensor"]))
     if op == "subs":
-        subs = step["subs"]
-        kw = OrderedDict((n, val_build(vs, O.inputs[n])) for n, vs in subs.items())
-        branches = sorted({val_branch(vs) for vs in subs.values()})
-        tags = ["subs"] + ["subs:" + b for b in branches] + sorted({"val:" + vs["t"] for vs in subs.values()})
-        for vs in subs.values():
-            if vs["t"] == "affine":
-                tags += sorted(ex_tags(vs["expr"]))
-        contract = "Gaussian.eager_subs[" + "+".join(branches) + "]"
-        F2 = F(**kw)
-        return F2, orc_subs(O, subs), contract, tags
+        return orc_subs(O, step["subs"])
     if op == "align":
-        names = tuple(step["names"])
-        O2 = Orc(OrderedDict((n, O.inputs[n]) for n in list(names) + [k for k in O.inputs if k not in names]), O.fn)
-        return F.align(names), O2, "Gaussian.align", ["align"]
+        names = list(step["names"])
+        return Orc(OrderedDict((n, O.inputs[n]) for n in names + [k for k in O.inputs if k not in names]), O.fn)
     if op == "cat":
-        others = [build_leaf(l) for l in step["others"]]
         oothers = [orc_leaf(l) for l in step["others"]]
         for i, t in enumerate(step.get("other_tensors", [])):
             if t is not None:
-                others[i] = others[i] + build_tensor(t)
                 oothers[i] = orc_add(oothers[i], orc_tensor(t))
         pos = step["pos"]
-        parts = others[:pos] + [F] + others[pos:]
-        oparts = oothers[:pos] + [O] + oothers[pos:]
-        F2 = Cat(step["name"], tuple(parts), step["part_name"])
+        return orc_cat(step["name"], step["part_name"], oothers[:pos] + [O] + oothers[pos:])
+    if op == "compress_interp":
+        return O
+    raise ValueError(op)
+
+
+def step_tags_static(step):
+    op = step["op"]
+    if op == "subs":
+        branches = sorted({val_branch(vs) for vs in step["subs"].values()})
+        tags = ["subs"] + ["subs:" + b for b in branches] + sorted({"val:" + vs["t"] for vs in step["subs"].values()})
+        for vs in step["subs"].values():
+            if vs["t"] == "affine":
+                tags += sorted(ex_tags(vs["expr"]))
+        return "Gaussian.eager_subs[" + "+".join(branches) + "]", tags
+    if op == "add":
+        return "eager_add_gaussian_gaussian", ["add"] + ["rhs_" + t for t in leaf_tags(step["leaf"])]
+    if op == "add_tensor":
+        return "add[Gaussian,Tensor]", ["add_tensor"]
+    if op == "cat":
         tags = ["cat", "cat:rename" if step["name"] != step["part_name"] else "cat:same_name"]
         if any(t is not None for t in step.get("other_tensors", [])):
             tags.append("cat:mixture")
-        return F2, orc_cat(step["name"], step["part_name"], oparts), "joint.eager_cat_homogeneous", tags
+        return "joint.eager_cat_homogeneous", tags
+    if op == "align":
+        return "Gaussian.align", ["align"]
+    if op == "compress_interp":
+        return "_compress_gaussians", ["compress_gaussians"]
+    return "step:" + op, [op]
+
+
+def apply_step(F, O, step):
+    """the funsor side of a step, on the REAL code -> F2"""
+    op = step["op"]
+    if op == "add":
+        G = build_leaf(step["leaf"])
+        return (G + F) if step.get("side") == "left" else (F + G)
+    if op == "add_tensor":
+        return F + build_tensor(step["tensor"])
+    if op == "subs":
+        kw = OrderedDict((n, val_build(vs, O.inputs[n])) for n, vs in step["subs"].items())
+        return F(**kw)
+    if op == "align":
+        return F.align(tuple(step["names"]))
+    if op == "cat":
+        others = [build_leaf(l) for l in step["others"]]
+        for i, t in enumerate(step.get("other_tensors", [])):
+            if t is not None:
+                others[i] = others[i] + build_tensor(t)
+        pos = step["pos"]
+        return Cat(step["name"], tuple(others[:pos] + [F] + others[pos:]), step["part_name"])
     if op == "compress_interp":
         from funsor.interpretations import compress_gaussians
 
         with compress_gaussians:
-            F2 = reinterpret(F)
-        return F2, O, "_compress_gaussians", ["compress_gaussians"]
+            return reinterpret(F)
     raise ValueError(op)
 
 
@@ -503,8 +541,40 @@ def rec(status, contract, tags, detail="", nontrivial=True):
     return dict(status=status, contract=contract, tags=list(tags), detail=detail, nontrivial=nontrivial)
 
 
-def check_pointwise(F, O, contract, tags, rs, npoints, out, nontrivial=True, output_shape=()):
-    """postcondition:  F.inputs == O.inputs (as name -> domain)  and  F(point) == O(point) at npoints points"""
+def fs_values(F, inputs, points):
+    """evaluate the funsor at all points with ONE substitution (the points are stacked along a fresh batch
+    input "_p"); -> array of len(points) or None"""
+    N = len(points)
+    pin = OrderedDict([("_p", Bint[N])])
+    kw = {}
+    for n, d in inputs.items():
+        if n not in F.inputs:
+            continue
+        if d[0] == "int":
+            kw[n] = Tensor(np.array([int(p[n]) for p in points]), pin, d[1])
+        else:
+            kw[n] = Tensor(np.stack([np.asarray(p[n], dtype=float) for p in points]), pin)
+    r = F(**kw) if kw else F
+    if not isinstance(r, (Tensor, Number)):
+        r = reinterpret(r)
+    if isinstance(r, Number):
+        return np.full(N, float(r.data))
+    if isinstance(r, Tensor):
+        if not r.inputs:
+            return np.broadcast_to(np.asarray(r.data, dtype=float), (N,) + tuple(r.output.shape)).copy()
+        if tuple(r.inputs) == ("_p",):
+            return np.asarray(r.data, dtype=float)
+    return None
+
+
+def fmt_point(p):
+    return {n: (np.asarray(x).tolist()) for n, x in p.items()}
+
+
+def check_pointwise(F, O, contract, tags, rs, npoints, out, nontrivial=True, out_shape=(), points=None):
+    """postcondition:  F.inputs == O.inputs (as name -> domain)  and  F(point) == O(point) at npoints points.
+    The points are evaluated with one stacked substitution; on a mismatch (or if that stays lazy) they are
+    re-evaluated one by one so that the report names a single point."""
     if not isinstance(F, Funsor):
         out.append(rec("fail", contract, tags + ["not_a_funsor"], "result is %r" % (type(F),)))
         return False
@@ -513,22 +583,45 @@ def check_pointwise(F, O, contract, tags, rs, npoints, out, nontrivial=True, out
     if fi != oi:
         out.append(rec("fail", contract, tags + ["inputs"], "inputs of result %r != expected %r" % (fi, oi)))
         return False
-    for k in range(npoints):
-        p = rand_point(O.inputs, rs)
+    if F.output != Reals[tuple(out_shape)]:
+        out.append(rec("fail", contract, tags + ["output"], "output of result %r != %r" % (F.output, Reals[tuple(out_shape)])))
+        return False
+    points = [rand_point(O.inputs, rs) for _ in range(npoints)] if points is None else points
+    npoints = len(points)
+    want = np.array([np.asarray(O(p), dtype=float) for p in points]).reshape((npoints,) + tuple(out_shape))
+    got = None
+    stacked_exc = None
+    try:
+        got = fs_values(F, O.inputs, points)
+    except Exception as e:
+        stacked_exc = e
+    # nontrivial rule: the expected values are not all equal (or, for a result without inputs, not zero)
+    nontrivial = bool(np.any(np.ptp(want, axis=0) > 1e-9)) if O.inputs else bool(np.any(np.abs(want[0]) > 1e-12))
+    if got is not None and close(got, want):
+        out.append(rec("ok", contract, tags, nontrivial=nontrivial))
+        return True
+    for p, w in zip(points, want):
         try:
             v = fs_value(F, O.inputs, p)
         except NotImplementedError as e:
             out.append(rec("declined", contract, tags, "evaluation: NotImplementedError %s" % e))
             return True
+        except Exception as e:
+            out.append(rec("fail", contract, tags + ["eval_raises:" + type(e).__name__], "evaluating the result at %r raised %s: %s" % (fmt_point(p), type(e).__name__, e)))
+            return False
         if v is None:
             out.append(rec("declined", contract, tags, "result stays lazy under evaluation at a full point"))
             return True
-        w = O(p)
         if not close(v, w):
-            pj = {n: (np.asarray(x).tolist()) for n, x in p.items()}
-            out.append(rec("fail", contract, tags + ["value"], "at %r: funsor %r oracle %r" % (pj, np.asarray(v).tolist(), np.asarray(w).tolist())))
+            out.append(rec("fail", contract, tags + ["value"], "at %r: funsor %r oracle %r" % (fmt_point(p), np.asarray(v).tolist(), np.asarray(w).tolist())))
             return False
-    out.append(rec("ok", contract, tags, nontrivial=nontrivial))
+    if stacked_exc is not None:
+        out.append(rec("fail", contract, tags + ["eval_stacked", "eval_raises:" + type(stacked_exc).__name__], "pointwise evaluation agrees with the oracle but substituting the %d points stacked along a batch input raised %s: %s" % (npoints, type(stacked_exc).__name__, stacked_exc)))
+        return False
+    if got is not None:
+        out.append(rec("fail", contract, tags + ["eval_stacked", "value"], "pointwise evaluation agrees with the oracle but the stacked substitution gives %r, oracle %r at %r" % (np.asarray(got).tolist(), want.tolist(), [fmt_point(p) for p in points])))
+        return False
+    out.append(rec("ok", contract, tags + ["stacked_eval_lazy"], nontrivial=nontrivial))
     return True
 
 
@@ -551,48 +644,34 @@ def case_chain(spec):
             out.append(rec("fail", "GaussianMeta.__call__", ltags + ["raises:" + type(e).__name__], "constructor raised %s: %s" % (type(e).__name__, e)))
             return out
         O = orc_leaf(spec["leaf"])
-        ok = check_pointwise(F, O, "GaussianMeta.__call__", ltags, rs, npts, out)
-        out[-1]["step"] = 0
-        if not ok:
-            return out
+        if spec.get("check_leaf", True):
+            ok = check_pointwise(F, O, "GaussianMeta.__call__", ltags, rs, npts, out)
+            out[-1]["step"] = 0
+            if not ok:
+                return out
         for depth, step in enumerate(spec["ops"]):
+            contract, stags = step_tags_static(step)
+            tags = ltags + stags + ["depth:%d" % (depth + 1)]
+            if not isinstance(F, Gaussian):
+                tags.append("lhs:" + type(F).__name__.split("[")[0])
+            O2 = orc_step(O, step)
             try:
-                F2, O2, contract, tags = apply_step(F, O, step)
+                F2 = apply_step(F, O, step)
             except NotImplementedError as e:
-                out.append(rec("declined", "step:" + step["op"], ltags, "NotImplementedError %s" % e))
+                out.append(rec("declined", contract, tags, "NotImplementedError %s" % e))
                 out[-1]["step"] = depth + 1
                 return out
             except Exception as e:
-                # a supported pointwise operation on a valid argument raised: no result to compare
-                tags = step_tags_static(step, O)
-                out.append(rec("fail", tags[0], ltags + tags[1] + ["raises:" + type(e).__name__, "depth:%d" % (depth + 1)], "%s: %s" % (type(e).__name__, e)))
+                # a supported pointwise operation on a valid argument raised: there is no result to compare
+                out.append(rec("fail", contract, tags + ["raises:" + type(e).__name__], "%s: %s" % (type(e).__name__, e)))
                 out[-1]["step"] = depth + 1
                 return out
-            tags = ltags + tags + ["depth:%d" % (depth + 1)]
             ok = check_pointwise(F2, O2, contract, tags, rs, npts, out)
             out[-1]["step"] = depth + 1
             if not ok:
                 return out
             F, O = F2, O2
     return out
-
-
-def step_tags_static(step, O):
-    op = step["op"]
-    if op == "subs":
-        branches = sorted({val_branch(vs) for vs in step["subs"].values()})
-        tags = ["subs"] + ["subs:" + b for b in branches] + sorted({"val:" + vs["t"] for vs in step["subs"].values()})
-        for vs in step["subs"].values():
-            if vs["t"] == "affine":
-                tags += sorted(ex_tags(vs["expr"]))
-        return "Gaussian.eager_subs[" + "+".join(branches) + "]", tags
-    if op == "add":
-        return "eager_add_gaussian_gaussian", ["add"] + leaf_tags(step["leaf"])
-    if op == "cat":
-        return "joint.eager_cat_homogeneous", ["cat", "cat:rename" if step["name"] != step["part_name"] else "cat:same_name"]
-    if op == "align":
-        return "Gaussian.align", ["align"]
-    return "step:" + op, [op]
 
 
 def case_compress_rank(spec):
@@ -688,10 +767,1113 @@ def case_extract_affine(spec):
     return out
 
 
+# ------------------------------------------------------------------------------------------------
+# C13: dense closed forms (plain numpy, loops over batch elements)
+
+
+class OracleUndefined(Exception):
+    """the closed form does not exist (block not positive definite): outside the precondition"""
+
+
+def logsumexp_np(a, axis=None):
+    a = np.asarray(a, dtype=float)
+    m = np.max(a, axis=axis, keepdims=True)
+    m = np.where(np.isfinite(m), m, 0.0)
+    r = np.log(np.sum(np.exp(a - m), axis=axis, keepdims=True)) + m
+    return np.squeeze(r, axis=axis) if axis is not None else float(r.reshape(()))
+
+
+class Dense:
+    """a batch of quadratic forms  -1/2 x'Px + x'eta + c ; `mix` = batch names that are to be
+    log-sum-exp'ed at evaluation time (a mixture that has been reduced over its component index)"""
+
+    def __init__(self, ints, reals, P, eta, c, mix=()):
+        self.ints = [(n, int(s)) for n, s in ints]
+        self.reals = [(n, tuple(s)) for n, s in reals]
+        self.P, self.eta, self.c = np.array(P, dtype=float), np.array(eta, dtype=float), np.array(c, dtype=float)
+        self.mix = list(mix)
+
+    @staticmethod
+    def from_leaf(leaf):
+        return Dense(*dense_leaf(leaf))
+
+    @property
+    def bshape(self):
+        return tuple(s for _, s in self.ints)
+
+    def blocks(self):
+        out, off = OrderedDict(), 0
+        for n, s in self.reals:
+            out[n] = (off, off + prod(s))
+            off += prod(s)
+        return out
+
+    def add_tensor(self, tspec):
+        data = dec(tspec["data"])
+        tin = [(n, int(s)) for n, s in tspec["inputs"]]
+        ints = list(self.ints) + [(n, s) for n, s in tin if n not in dict(self.ints)]
+        bshape = tuple(s for _, s in ints)
+        D = self.P.shape[-1]
+        P = np.zeros(bshape + (D, D))
+        eta = np.zeros(bshape + (D,))
+        c = np.zeros(bshape)
+        names = [n for n, _ in ints]
+        for b in np.ndindex(*bshape):
+            bo = tuple(b[names.index(n)] for n, _ in self.ints)
+            bt = tuple(b[names.index(n)] for n, _ in tin)
+            P[b], eta[b], c[b] = self.P[bo], self.eta[bo], self.c[bo] + data[bt]
+        return Dense(ints, self.reals, P, eta, c, self.mix)
+
+    def marginalize(self, names):
+        blocks = self.blocks()
+        ib = np.concatenate([np.arange(*blocks[n]) for n, _ in self.reals if n in names]).astype(int)
+        ia = np.concatenate([np.arange(*blocks[n]) for n, _ in self.reals if n not in names] + [np.zeros(0)]).astype(int)
+        bshape = self.bshape
+        P = np.zeros(bshape + (len(ia), len(ia)))
+        eta = np.zeros(bshape + (len(ia),))
+        c = np.zeros(bshape)
+        for b in np.ndindex(*bshape):
+            Pb = self.P[b]
+            Pbb = Pb[np.ix_(ib, ib)]
+            ev = np.linalg.eigvalsh(Pbb)
+            if ev.min() <= 1e-9 * max(1.0, ev.max()):
+                raise OracleUndefined("block not positive definite")
+            Pab = Pb[np.ix_(ia, ib)]
+            eb = self.eta[b][ib]
+            sol = np.linalg.solve(Pbb, eb)
+            P[b] = Pb[np.ix_(ia, ia)] - Pab @ np.linalg.solve(Pbb, Pab.T)
+            eta[b] = self.eta[b][ia] - Pab @ sol
+            c[b] = self.c[b] + 0.5 * float(eb @ sol) + 0.5 * len(ib) * LOG2PI - 0.5 * float(np.sum(np.log(ev)))
+        return Dense(self.ints, [(n, s) for n, s in self.reals if n not in names], P, eta, c, self.mix)
+
+    def _drop_axes(self, names, how):
+        axes = tuple(k for k, (n, _) in enumerate(self.ints) if n in names)
+        ints = [(n, s) for n, s in self.ints if n not in names]
+        if how == "add":
+            return Dense(ints, self.reals, self.P.sum(axes), self.eta.sum(axes), self.c.sum(axes), self.mix)
+        assert not self.reals
+        return Dense(ints, self.reals, self.P.sum(axes), self.eta.sum(axes), logsumexp_np(self.c, axes), [m for m in self.mix if m not in names])
+
+    def reduce_int_logaddexp(self, names):
+        if self.reals:
+            return Dense(self.ints, self.reals, self.P, self.eta, self.c, self.mix + [n for n in names if n not in self.mix])
+        return self._drop_axes(set(names) | set(self.mix), "logaddexp")
+
+    def reduce_int_add(self, names):
+        if self.mix:
+            raise OracleUndefined("sum of a reduced mixture is not a quadratic form")
+        return self._drop_axes(set(names), "add")
+
+    def finish(self):
+        if self.mix and not self.reals:
+            return self._drop_axes(set(self.mix), "logaddexp")
+        return self
+
+    def moments(self, b):
+        """(log Z, mean, covariance) of batch element b (requires P positive definite)"""
+        P = self.P[b]
+        ev = np.linalg.eigvalsh(P)
+        if ev.min() <= 1e-9 * max(1.0, ev.max()):
+            raise OracleUndefined("not positive definite")
+        C_ = np.linalg.inv(P)
+        m = C_ @ self.eta[b]
+        logZ = self.c[b] + 0.5 * float(self.eta[b] @ m) + 0.5 * P.shape[0] * LOG2PI - 0.5 * float(np.sum(np.log(ev)))
+        return logZ, m, C_
+
+    def to_orc(self):
+        d = self.finish()
+        free = [(n, s) for n, s in d.ints if n not in d.mix]
+        inputs = OrderedDict((n, ("int", s)) for n, s in free)
+        for n, s in d.reals:
+            inputs[n] = ("real", s)
+        mixshape = tuple(s for n, s in d.ints if n in d.mix)
+
+        def fn(p):
+            x = flat_point(d.reals, p)
+            vals = []
+            for mb in np.ndindex(*mixshape):
+                it = iter(mb)
+                b = tuple(next(it) if n in d.mix else int(p[n]) for n, _ in d.ints)
+                vals.append(float(-0.5 * x @ d.P[b] @ x + x @ d.eta[b] + d.c[b]))
+            return vals[0] if not d.mix else float(logsumexp_np(np.array(vals), 0))
+
+        return Orc(inputs, fn)
+
+
+def split_kind(inputs, names):
+    """which branch of gaussian._split_real_inputs a reduced subset exercises"""
+    kinds = [(n in names) for n, d in inputs.items() if d[0] == "real"]
+    if all(kinds):
+        return "all_reals"
+    first_t, last_t = kinds.index(True), len(kinds) - 1 - kinds[::-1].index(True)
+    first_f, last_f = kinds.index(False), len(kinds) - 1 - kinds[::-1].index(False)
+    return "contiguous" if (last_t < first_f or last_f < first_t) else "interleaved"
+
+
+def case_reduce_program(spec):
+    """C13: a program of reductions / pointwise evaluations on  leaf (+ tensor);  the postcondition compares
+    the final result pointwise with the dense closed form (Schur complement, log-det term, log-sum-exp of the
+    mixture, sum over plates); with "check_each" the intermediate results are compared as well."""
+    out = []
+    rs = np.random.RandomState(spec["pseed"])
+    npts = spec.get("npoints", 5)
+    ltags = leaf_tags(spec["leaf"])
+    F = build_leaf(spec["leaf"])
+    D = Dense.from_leaf(spec["leaf"])
+    if spec.get("tensor") is not None:
+        T = build_tensor(spec["tensor"])
+        F = (T + F) if spec.get("tensor_side") == "left" else (F + T)
+        D = D.add_tensor(spec["tensor"])
+        ltags = ltags + ["mixture"]
+    interp = spec.get("interpretation")
+    deferred = OrderedDict()
+    cur_inputs = OrderedDict(D.to_orc().inputs)
+    for k, step in enumerate(spec["program"]):
+        op = step["op"]
+        last = k == len(spec["program"]) - 1
+        tags = list(ltags)
+        try:
+            if op == "reduce":
+                names = list(step["names"])
+                rnames = [n for n in names if cur_inputs[n][0] == "real"]
+                inames = [n for n in names if cur_inputs[n][0] == "int"]
+                red = step["red"]
+                if red == "logaddexp":
+                    if rnames:
+                        sk = split_kind(cur_inputs, rnames)
+                        tags += ["reduce:logaddexp", "split:" + sk]
+                        contract = "Gaussian.eager_reduce[logaddexp:%s]" % ("all_reals" if sk == "all_reals" else "partial")
+                        D = D.marginalize(rnames)
+                    else:
+                        contract = "mixture.reduce[logaddexp:ints]"
+                        tags += ["reduce:logaddexp:ints"]
+                    if inames:
+                        tags += ["reduce:ints_too"]
+                        D = D.reduce_int_logaddexp(inames)
+                else:
+                    contract = "Gaussian.eager_reduce[add]"
+                    tags += ["reduce:add"]
+                    D = D.reduce_int_add(inames)
+                for n in names:
+                    del cur_inputs[n]
+            elif op == "log_normalizer":
+                contract = "Gaussian.log_normalizer"
+                tags += ["log_normalizer"]
+                D = D.marginalize([n for n, d in cur_inputs.items() if d[0] == "real"])
+                cur_inputs = OrderedDict((n, d) for n, d in cur_inputs.items() if d[0] == "int")
+            elif op == "subs":
+                contract = "evaluate"
+                tags += ["evaluate"]
+                deferred.update(step["subs"])
+            else:
+                raise ValueError(op)
+        except OracleUndefined as e:
+            out.append(rec("declined", "precondition", tags, "generator produced a case outside the precondition: %s" % e))
+            return out
+        if k > 0:
+            tags.append("after:" + "+".join(st["op"] if st["op"] != "reduce" else "reduce_" + st["red"] for st in spec["program"][:k]))
+        try:
+            if op == "reduce":
+                fop = ops.logaddexp if step["red"] == "logaddexp" else ops.add
+                if interp == "moment_matching":
+                    from funsor.interpretations import moment_matching
+
+                    with moment_matching:
+                        F = F.reduce(fop, frozenset(step["names"]))
+                else:
+                    F = F.reduce(fop, frozenset(step["names"]))
+            elif op == "log_normalizer":
+                if not isinstance(F, Gaussian):
+                    out.append(rec("declined", contract, tags, "value is not a Gaussian"))
+                    return out
+                F = F.log_normalizer
+            elif op == "subs":
+                kw = OrderedDict((n, val_build(vs, cur_inputs[n])) for n, vs in step["subs"].items())
+                F = F(**kw)
+                for n in step["subs"]:
+                    del cur_inputs[n]
+        except NotImplementedError as e:
+            out.append(rec("declined", contract, tags, "NotImplementedError %s" % e))
+            return out
+        except Exception as e:
+            out.append(rec("fail", contract, tags + ["raises:" + type(e).__name__], "on an input satisfying the precondition (rank >= dim of the integrated block, block well conditioned) step %d %r raised %s: %s" % (k, step, type(e).__name__, e)))
+            out[-1]["step"] = k + 1
+            return out
+        if last or spec.get("check_each", True):
+            O = D.to_orc()
+            if deferred:
+                O = orc_subs(O, OrderedDict((n, vs) for n, vs in deferred.items()))
+            ok = check_pointwise(F, O, contract, tags, rs, npts, out)
+            out[-1]["step"] = k + 1
+            if not ok:
+                return out
+    return out
+
+
+def case_deficient(spec):
+    """C13 error clause: reducing (logaddexp) over a block whose precision block is rank deficient must raise
+    (or stay lazy), never return finite numbers."""
+    out = []
+    F = build_leaf(spec["leaf"])
+    tags = leaf_tags(spec["leaf"]) + ["deficient:" + spec["why"]]
+    for extra in spec.get("add", []):
+        F = F + build_leaf(extra)
+    contract = "Gaussian.eager_reduce[logaddexp]:error_clause" if spec["via"] == "reduce" else "Gaussian.%s:error_clause" % spec["via"]
+    try:
+        if spec["via"] == "reduce":
+            R = F.reduce(ops.logaddexp, frozenset(spec["names"]))
+        elif spec["via"] == "log_normalizer":
+            R = F.log_normalizer
+        elif spec["via"] == "integrate_variable":
+            n = spec["names"][0]
+            R = Integrate(F, Variable(n, F.inputs[n]), frozenset(spec["names"]))
+        elif spec["via"] == "sample":
+            R = F.sample(frozenset(spec["names"]))
+        else:
+            raise ValueError(spec["via"])
+    except Exception as e:
+        out.append(rec("ok", contract, tags + ["raised:" + type(e).__name__]))
+        return out
+    # no exception: look at what came back
+    datas = []
+
+    def collect(x):
+        if isinstance(x, Tensor):
+            datas.append(np.asarray(x.data, dtype=float))
+        elif isinstance(x, Gaussian):
+            datas.append(np.asarray(x.white_vec, dtype=float))
+            datas.append(np.asarray(x.prec_sqrt, dtype=float))
+        elif isinstance(x, Number):
+            datas.append(np.asarray(float(x.data)))
+        elif isinstance(x, Funsor):
+            for v in x._ast_values:
+                collect(v)
+        elif isinstance(x, (tuple, frozenset)):
+            for v in x:
+                collect(v)
+
+    lazy = type(R).__name__.split("[")[0] in ("Reduce", "Integrate", "Subs") or (type(R).__name__.startswith("Contraction") and getattr(R, "reduced_vars", None))
+    if lazy:
+        out.append(rec("declined", contract, tags, "stays lazy (%s)" % type(R).__name__.split("[")[0]))
+        return out
+    collect(R)
+    if datas and all(np.all(np.isfinite(d)) for d in datas):
+        out.append(rec("fail", contract, tags + ["returns_number"], "no error: returned %s with finite data %r" % (type(R).__name__.split("[")[0], [d.tolist() for d in datas][:2])))
+    else:
+        out.append(rec("ok", contract, tags + ["returned_nonfinite"]))
+    return out
+
+
+def integrand_build(ig):
+    t = ig["t"]
+    if t == "var":
+        return Variable(ig["name"], Reals[tuple(ig["shape"])])
+    if t == "affine":
+        return ex_build(ig["expr"])
+    if t == "gaussian":
+        return build_leaf(ig["leaf"])
+    if t == "neg_gaussian":
+        return -build_leaf(ig["leaf"])
+    if t == "sum_gaussians":
+        return build_leaf(ig["leaves"][0]) - build_leaf(ig["leaves"][1])
+    raise ValueError(t)
+
+
+def case_integrate(spec):
+    """C13: Integrate(g, f, vars) == sum_{reduced ints} Z * E_{N(m, C)}[f]  with (Z, m, C) from the dense form."""
+    out = []
+    rs = np.random.RandomState(spec["pseed"])
+    ig = spec["integrand"]
+    tags = leaf_tags(spec["leaf"]) + ["integrand:" + ig["t"]]
+    contract = "integrate.eager_integrate[Gaussian,%s]" % ig["t"]
+    D = Dense.from_leaf(spec["leaf"])
+    if spec.get("tensor") is not None:
+        D = D.add_tensor(spec["tensor"])
+        tags.append("mixture_measure")
+        contract = "integrate.eager_integrate[GaussianMixture,%s]" % ig["t"]
+    names = list(spec["names"])
+    rnames = [n for n in names if n in dict(D.reals)]
+    inames = [n for n in names if n in dict(D.ints)]
+    if inames:
+        tags.append("reduce:ints_too")
+    blocks = D.blocks()
+    assert set(rnames) == set(blocks), "only complete integration has a closed form here"
+    # signature of the integrand
+    if ig["t"] == "var":
+        f_inputs = OrderedDict([(ig["name"], ("real", tuple(ig["shape"])))])
+        out_shape = tuple(ig["shape"])
+    elif ig["t"] == "affine":
+        f_inputs = ex_inputs(ig["expr"])
+        probe = {n: (np.zeros(d[1]) if d[0] == "real" else 0) for n, d in f_inputs.items()}
+        out_shape = np.shape(ex_eval(ig["expr"], probe))
+    else:
+        leaves = ig["leaves"] if ig["t"] == "sum_gaussians" else [ig["leaf"]]
+        f_inputs = OrderedDict()
+        for l in leaves:
+            f_inputs.update(leaf_inputs(l))
+        out_shape = ()
+    res_inputs = OrderedDict((n, ("int", s)) for n, s in D.ints if n not in inames)
+    for n, d in f_inputs.items():
+        if d[0] == "int" and n not in inames:
+            res_inputs[n] = d
+    if any(d[0] == "real" and n not in rnames for n, d in f_inputs.items()):
+        raise AssertionError("generator: integrand has a free real input")
+
+    def expect_one(p):
+        b = tuple(int(p[n]) for n, _ in D.ints)
+        logZ, m, C_ = D.moments(b)
+        Z = math.exp(logZ)
+        mp = dict(p)
+        for n, s in D.reals:
+            mp[n] = m[blocks[n][0] : blocks[n][1]].reshape(s)
+        if ig["t"] == "var":
+            return Z * mp[ig["name"]]
+        if ig["t"] == "affine":
+            return Z * ex_eval(ig["expr"], mp)
+        tot = 0.0
+        for sign, l in zip([1.0, -1.0] if ig["t"] == "sum_gaussians" else [(-1.0 if ig["t"] == "neg_gaussian" else 1.0)], leaves):
+            ints2, reals2, P2, eta2, c2 = dense_leaf(l)
+            b2 = tuple(int(p[n]) for n, _ in ints2)
+            idx = np.concatenate([np.arange(*blocks[n]) for n, _ in reals2]).astype(int)
+            ms, Cs = m[idx], C_[np.ix_(idx, idx)]
+            tot += sign * (-0.5 * (float(np.trace(P2[b2] @ Cs)) + float(ms @ P2[b2] @ ms)) + float(ms @ eta2[b2]) + float(c2[b2]))
+        return Z * tot
+
+    def fn(p):
+        red = [(n, s) for n, s in list(D.ints) + [(n, d[1]) for n, d in f_inputs.items() if d[0] == "int" and n not in dict(D.ints)] if n in inames]
+        tot = 0.0
+        for rb in np.ndindex(*[s for _, s in red]):
+            q = dict(p)
+            for (n, _), v in zip(red, rb):
+                q[n] = v
+            tot = tot + expect_one(q)
+        return tot
+
+    try:
+        O = Orc(res_inputs, fn)
+        O({n: 0 for n in res_inputs})
+    except OracleUndefined as e:
+        out.append(rec("declined", "precondition", tags, str(e)))
+        return out
+    try:
+        G_ = build_leaf(spec["leaf"])
+        if spec.get("tensor") is not None:
+            G_ = build_tensor(spec["tensor"]) + G_
+        f = integrand_build(ig)
+        rv = frozenset(Variable(n, G_.inputs[n] if n in G_.inputs else f.inputs[n]) for n in names)
+        R = Integrate(G_, f, rv)
+    except NotImplementedError as e:
+        out.append(rec("declined", contract, tags, "NotImplementedError %s" % e))
+        return out
+    except Exception as e:
+        out.append(rec("fail", contract, tags + ["raises:" + type(e).__name__], "full-rank measure, complete integration: raised %s: %s" % (type(e).__name__, e)))
+        return out
+    if not isinstance(R, (Tensor, Number)):
+        out.append(rec("declined", contract, tags, "stays lazy (%s)" % type(R).__name__.split("[")[0]))
+        return out
+    check_pointwise(R, O, contract, tags, rs, spec.get("npoints", 5), out, out_shape=tuple(out_shape))
+    return out
+
+
+def case_moment_matching(spec):
+    """C13: under moment_matching,  (t + g).reduce(logaddexp, ints)  is the single Gaussian with the total mass,
+    mean and covariance of the mixture:  result(x) == log M + log N(x; mean, cov)."""
+    from funsor.interpretations import moment_matching
+
+    out = []
+    rs = np.random.RandomState(spec["pseed"])
+    tags = leaf_tags(spec["leaf"]) + ["moment_matching"]
+    contract = "joint.moment_matching_contract_joint"
+    D = Dense.from_leaf(spec["leaf"]).add_tensor(spec["tensor"])
+    names = list(spec["names"])
+    inames = [n for n in names if n in dict(D.ints)]
+    rnames = [n for n in names if n in dict(D.reals)]
+    if rnames:
+        tags.append("exact_vars")
+    kept = [(n, s) for n, s in D.ints if n not in inames]
+    red = [(n, s) for n, s in D.ints if n in inames]
+    reals_left = [(n, s) for n, s in D.reals if n not in rnames]
+    inputs = OrderedDict((n, ("int", s)) for n, s in kept)
+    for n, s in reals_left:
+        inputs[n] = ("real", s)
+    try:
+        Dm = D.marginalize(rnames) if rnames else D
+        if reals_left:
+            for b in np.ndindex(*Dm.bshape):
+                Dm.moments(b)
+    except OracleUndefined as e:
+        out.append(rec("declined", "precondition", tags, str(e)))
+        return out
+
+    def fn(p):
+        if not reals_left:
+            vals = []
+            for rb in np.ndindex(*[s for _, s in red]):
+                it = iter(rb)
+                b = tuple(next(it) if n in inames else int(p[n]) for n, _ in Dm.ints)
+                vals.append(Dm.c[b])
+            return float(logsumexp_np(np.array(vals), 0))
+        comps = []
+        for rb in np.ndindex(*[s for _, s in red]):
+            it = iter(rb)
+            b = tuple(next(it) if n in inames else int(p[n]) for n, _ in Dm.ints)
+            comps.append(Dm.moments(b))
+        logw = np.array([c[0] for c in comps])
+        logM = float(logsumexp_np(logw, 0))
+        w = np.exp(logw - logM)
+        mean = sum(wi * c[1] for wi, c in zip(w, comps))
+        cov = sum(wi * (c[2] + np.outer(c[1] - mean, c[1] - mean)) for wi, c in zip(w, comps))
+        x = flat_point(reals_left, p)
+        ev = np.linalg.eigvalsh(cov)
+        d = x - mean
+        return logM - 0.5 * float(d @ np.linalg.solve(cov, d)) - 0.5 * len(x) * LOG2PI - 0.5 * float(np.sum(np.log(ev)))
+
+    O = Orc(inputs, fn)
+    try:
+        G_ = build_leaf(spec["leaf"])
+        T = build_tensor(spec["tensor"])
+        with moment_matching:
+            R = (T + G_).reduce(ops.logaddexp, frozenset(names))
+    except NotImplementedError as e:
+        out.append(rec("declined", contract, tags, "NotImplementedError %s" % e))
+        return out
+    except Exception as e:
+        out.append(rec("fail", contract, tags + ["raises:" + type(e).__name__], "full-rank mixture: raised %s: %s" % (type(e).__name__, e)))
+        return out
+    if type(R).__name__.split("[")[0] == "Contraction" and R.reduced_vars:
+        out.append(rec("declined", contract, tags, "stays lazy"))
+        return out
+    check_pointwise(R, O, contract, tags, rs, spec.get("npoints", 5), out)
+    return out
+
+
+# ------------------------------------------------------------------------------------------------
+# C14: Delta semantics
+
+
+def dyadic(rs, shape=()):
+    return rs.randint(-16, 17, size=shape) / 8.0
+
+
+def delta_parts(spec):
+    name = spec["name"]
+    dom = ("int", int(spec["dom"][1])) if spec["dom"][0] == "int" else ("real", tuple(spec["dom"][1]))
+    pv, ld = spec["point"], spec["log_density"]
+    inputs = OrderedDict([(name, dom)])
+    inputs.update(val_inputs(pv, dom))
+    point_f = val_build(pv, dom)
+    if not isinstance(point_f, Funsor):
+        point_f = funsor.to_funsor(point_f, dom_to_funsor(dom))
+    tags = ["delta", "point:" + pv["t"], "var:" + ("bint" if dom[0] == "int" else "real%s" % (list(dom[1]),))]
+    if ld is None:  # two-argument constructor: unit mass
+        return name, dom, inputs, point_f, None, tags + ["log_density:default"]
+    own = [n for n in val_inputs(ld, ("real", ())) if n not in inputs]
+    inputs.update(val_inputs(ld, ("real", ())))
+    ld_f = val_build(ld, ("real", ()))
+    if not isinstance(ld_f, Funsor):
+        ld_f = funsor.to_funsor(ld_f)
+    tags.append("log_density:" + ld["t"])
+    if own:
+        tags.append("log_density_has_own_inputs")
+    return name, dom, inputs, point_f, ld_f, tags
+
+
+def ld_eval(ld, p):
+    return 0.0 if ld is None else float(val_eval(ld, p))
+
+
+def make_delta(name, point_f, ld_f):
+    return Delta(name, point_f) if ld_f is None else Delta(name, point_f, ld_f)
+
+
+def dyadic_point(inputs, rs):
+    p = {}
+    for n, d in inputs.items():
+        p[n] = int(rs.randint(d[1])) if d[0] == "int" else np.asarray(dyadic(rs, d[1]), dtype=float)
+    return p
+
+
+def case_delta_eval(spec):
+    """C14: Delta(name, point, log_density)(everything at a point) == log_density if value == point else -inf.
+    Evaluated on and off the support, with three styles of passing the values."""
+    out = []
+    rs = np.random.RandomState(spec["pseed"])
+    name, dom, inputs, point_f, ld_f, tags = delta_parts(spec)
+    contract = "Delta.eager_subs"
+    try:
+        d = make_delta(name, point_f, ld_f)
+    except Exception as e:
+        out.append(rec("fail", "Delta.__init__", tags + ["raises:" + type(e).__name__], "%s: %s" % (type(e).__name__, e)))
+        return out
+    pv, ld = spec["point"], spec["log_density"]
+
+    def fn(p):
+        return ld_eval(ld, p) if np.array_equal(np.asarray(p[name]), np.asarray(val_eval(pv, p))) else -math.inf
+
+    O = Orc(inputs, fn)
+    if fs_inputs(d) != dict(inputs):
+        out.append(rec("fail", "Delta.__init__", tags + ["inputs"], "inputs %r != expected %r" % (fs_inputs(d), dict(inputs))))
+        return out
+    points = []
+    for k in range(6):
+        p = dyadic_point(inputs, rs)
+        at = val_eval(pv, p)
+        if k % 2 == 0:
+            p[name] = int(at) if dom[0] == "int" else np.asarray(at, dtype=float)
+        else:
+            if dom[0] == "int":
+                p[name] = (int(at) + 1 + int(rs.randint(max(dom[1] - 1, 1)))) % dom[1]
+            else:
+                off = np.zeros(dom[1])
+                off.reshape(-1)[rs.randint(off.size)] = 1.0
+                p[name] = np.asarray(at, dtype=float) + off
+        points.append(p)
+    # style 1: all points stacked / one by one with Tensor values (check_pointwise does both when needed)
+    check_pointwise(d, O, contract, tags + ["value:tensor"], rs, 6, out, points=points)
+    # style 2: funsor Numbers (ints) and Tensors (reals), one point at a time
+    # style 3: python numbers for scalar domains
+    for style in ("number", "python"):
+        stags = tags + ["value:" + style]
+        scalar = all(dd[0] == "int" or dd[1] == () for dd in inputs.values())
+        if not scalar:
+            continue
+        bad = None
+        for p in points:
+            kw = {}
+            for n, dd in inputs.items():
+                if style == "number":
+                    kw[n] = Number(int(p[n]), dd[1]) if dd[0] == "int" else Number(float(p[n]))
+                else:
+                    kw[n] = int(p[n]) if dd[0] == "int" else float(p[n])
+            try:
+                r = d(**kw)
+                if not isinstance(r, (Tensor, Number)) or r.inputs:
+                    r = reinterpret(r)
+                if not isinstance(r, (Tensor, Number)) or r.inputs:
+                    bad = ("declined", "stays lazy")
+                    break
+                v = float(np.asarray(r.data))
+            except Exception as e:
+                bad = ("fail", "evaluating at %r raised %s: %s" % (fmt_point(p), type(e).__name__, e), "raises:" + type(e).__name__)
+                break
+            if not close(v, O(p)):
+                bad = ("fail", "at %r: funsor %r expected %r" % (fmt_point(p), v, O(p)), "value")
+                break
+        if bad is None:
+            out.append(rec("ok", contract, stags))
+        elif bad[0] == "declined":
+            out.append(rec("declined", contract, stags, bad[1]))
+        else:
+            out.append(rec("fail", contract, stags + [bad[2]], bad[1]))
+    return out
+
+
+def f_parts(fs):
+    """an integrand / summand f: (funsor, oracle, out_shape, tag)"""
+    t = fs["t"]
+    if t == "leaf":
+        return build_leaf(fs["leaf"]), orc_leaf(fs["leaf"]), (), "f:gaussian"
+    if t == "tensor":
+        return build_tensor(fs["tensor"]), orc_tensor(fs["tensor"]), (), "f:tensor"
+    if t == "expr":
+        e = fs["expr"]
+        inputs = ex_inputs(e)
+        probe = {n: (np.zeros(d[1]) if d[0] == "real" else 0) for n, d in inputs.items()}
+        shape = np.shape(ex_eval(e, probe))
+        return ex_build(e), Orc(inputs, lambda p, e=e: ex_eval(e, p)), tuple(shape), "f:expr"
+    raise ValueError(t)
+
+
+def case_delta_reduce(spec):
+    """C14: (Delta + f).reduce(logaddexp, name) == f(name=point) + log_density ;  Integrate(Delta, f, name) ==
+    exp(log_density) * f(name=point)."""
+    out = []
+    rs = np.random.RandomState(spec["pseed"])
+    name, dom, dinputs, point_f, ld_f, tags = delta_parts(spec)
+    f, fo, fshape, ftag = f_parts(spec["f"])
+    tags = tags + [ftag, "via:" + spec["via"]]
+    pv, ld = spec["point"], spec["log_density"]
+    fsub = orc_subs(fo, {name: pv}) if name in fo.inputs else fo
+    inputs = OrderedDict(fsub.inputs)
+    for n, dd in dinputs.items():
+        if n != name:
+            inputs[n] = dd
+    if spec["via"] == "integrate":
+        contract = "integrate.eager_integrate[Delta]"
+        O = Orc(inputs, lambda p: math.exp(ld_eval(ld, p)) * np.asarray(fsub(p)))
+    else:
+        contract = "Delta.eager_reduce[logaddexp]"
+        O = Orc(inputs, lambda p: float(fsub(p)) + ld_eval(ld, p))
+    unit = ld is None or (ld["t"] in ("num_real", "py_float") and float(ld["v"]) == 0.0)
+    assert unit, "the reduce / integrate contracts of C14 are stated for unit-mass Deltas only"
+    try:
+        d = make_delta(name, point_f, ld_f)
+        if spec["via"] == "integrate":
+            R = Integrate(d, f, frozenset([Variable(name, dom_to_funsor(dom))]))
+        elif spec["via"] == "reduce_left":
+            R = (d + f).reduce(ops.logaddexp, name)
+        else:
+            R = (f + d).reduce(ops.logaddexp, name)
+    except Exception as e:
+        out.append(rec("fail", contract, tags + ["raises:" + type(e).__name__], "%s: %s" % (type(e).__name__, e)))
+        return out
+    check_pointwise(R, O, contract, tags, rs, spec.get("npoints", 5), out, out_shape=fshape if spec["via"] == "integrate" else ())
+    return out
+
+
+# ------------------------------------------------------------------------------------------------
+# C14: sampling
+
+
+def materialize(F, inputs):
+    """values of F on the full grid of its (all-integer) inputs, by one stacked substitution -> array of shape sizes"""
+    names = list(inputs)
+    sizes = [inputs[n][1] for n in names]
+    grid = list(np.ndindex(*sizes))
+    points = [dict(zip(names, g)) for g in grid]
+    if not points:
+        points = [{}]
+    vals = fs_values(F, inputs, points)
+    if vals is None:
+        vals = np.array([fs_value(F, inputs, p) for p in points], dtype=float)
+    return np.asarray(vals, dtype=float).reshape(tuple(sizes))
+
+
+def case_tensor_sample(spec):
+    """C14 for Tensor.sample: inputs/output, support, exact mass identity per batch element and particle,
+    determinism under the numpy seed; also funsor's own reduction of the sample over the sampled variables."""
+    out = []
+    tspec = spec["tensor"]
+    data = dec(tspec["data"])
+    tin = OrderedDict((n, ("int", int(s))) for n, s in tspec["inputs"])
+    sin = OrderedDict((n, ("int", int(s))) for n, s in spec["sample_inputs"])
+    sampled = list(spec["sampled"])
+    tags = ["tensor_sample", "sampled:%d/%d" % (len(sampled), len(tin)), "sample_inputs:%d" % len(sin)]
+    if np.any(np.all(np.isneginf(np.moveaxis(data, [list(tin).index(n) for n in sampled], list(range(len(sampled)))).reshape((-1,) + tuple(s for n, (_, s) in tin.items() if n not in sampled))), axis=0)):
+        tags.append("row_all_neginf")
+    contract = "Tensor._sample"
+    T = build_tensor(tspec)
+    fsin = OrderedDict((n, Bint[s]) for n, (_, s) in sin.items())
+
+    def draw():
+        np.random.seed(spec["npseed"])
+        with np.errstate(all="ignore"):
+            return T.sample(frozenset(sampled), fsin.copy())
+
+    try:
+        R = draw()
+    except NotImplementedError as e:
+        out.append(rec("declined", contract, tags, "NotImplementedError %s" % e))
+        return out
+    except Exception as e:
+        out.append(rec("fail", contract, tags + ["raises:" + type(e).__name__], "%s: %s" % (type(e).__name__, e)))
+        return out
+    all_in = OrderedDict(sin)
+    all_in.update(tin)
+    if fs_inputs(R) != dict(all_in) or R.output != Real:
+        out.append(rec("fail", contract, tags + ["inputs"], "inputs %r output %r; expected inputs %r output Real" % (fs_inputs(R), R.output, dict(all_in))))
+        return out
+    with np.errstate(all="ignore"):
+        S = materialize(R, all_in)  # axes: sample inputs, then tensor inputs
+    ns = len(sin)
+    axes = tuple(ns + list(tin).index(n) for n in sampled)
+    full = np.broadcast_to(data, S.shape)
+    # support
+    if np.any(np.isnan(S)) or np.any((S > -math.inf) & np.isneginf(full)):
+        out.append(rec("fail", contract, tags + ["support"], "the sample has mass where the tensor is -inf (or is nan): sample %r tensor %r" % (S.tolist(), data.tolist())))
+        return out
+    with np.errstate(all="ignore"):
+        count = np.sum(S > -math.inf, axis=axes)
+        mass_s = logsumexp_np(S, axes)
+        mass_t = logsumexp_np(full, axes)
+    if np.any(count > 1):
+        out.append(rec("fail", contract, tags + ["support"], "more than one sampled point for one particle / batch element"))
+        return out
+    if not close(mass_s, mass_t):
+        out.append(rec("fail", contract, tags + ["mass"], "total mass over the sampled variables: sample %r original %r" % (mass_s.tolist(), mass_t.tolist())))
+        return out
+    nontrivial = bool(np.any(np.sum(np.isfinite(full), axis=axes) > 1))
+    out.append(rec("ok", contract, tags, nontrivial=nontrivial))
+    # determinism
+    R2 = draw()
+    with np.errstate(all="ignore"):
+        S2 = materialize(R2, all_in)
+    if not np.array_equal(S, S2):
+        out.append(rec("fail", "Tensor._sample:deterministic", tags + ["determinism"], "two draws with the same numpy seed differ"))
+    else:
+        out.append(rec("ok", "Tensor._sample:deterministic", tags, nontrivial=nontrivial))
+    # funsor's own reduction of the sample
+    rest = OrderedDict((n, d) for n, d in all_in.items() if n not in sampled)
+    try:
+        with np.errstate(all="ignore"):
+            Rm = R.reduce(ops.logaddexp, frozenset(sampled))
+            M = materialize(Rm, rest) if fs_inputs(Rm) == dict(rest) else None
+    except NotImplementedError as e:
+        out.append(rec("declined", "Delta.eager_reduce[sample]", tags, str(e)))
+        return out
+    except Exception as e:
+        out.append(rec("fail", "Delta.eager_reduce[sample]", tags + ["raises:" + type(e).__name__], "%s: %s" % (type(e).__name__, e)))
+        return out
+    if M is None:
+        out.append(rec("fail", "Delta.eager_reduce[sample]", tags + ["inputs"], "inputs of sample.reduce(logaddexp, sampled) %r != %r" % (fs_inputs(Rm), dict(rest))))
+    elif not close(M, mass_t):
+        out.append(rec("fail", "Delta.eager_reduce[sample]", tags + ["mass"], "sample.reduce(logaddexp, sampled) = %r, original mass %r" % (M.tolist(), mass_t.tolist())))
+    else:
+        out.append(rec("ok", "Delta.eager_reduce[sample]", tags, nontrivial=nontrivial))
+    return out
+
+
+def case_mc_tensor(spec):
+    """C14 for montecarlo.MonteCarlo: under the interpretation, Integrate(t, f, vars) equals
+    sum_v exp(sample(v)) f(v) for the sample drawn with the same numpy seed."""
+    from funsor.montecarlo import MonteCarlo
+
+    out = []
+    tspec = spec["tensor"]
+    tin = OrderedDict((n, ("int", int(s))) for n, s in tspec["inputs"])
+    sin = OrderedDict((n, ("int", int(s))) for n, s in spec["sample_inputs"])
+    sampled = list(spec["sampled"])
+    tags = ["montecarlo", "sampled:%d/%d" % (len(sampled), len(tin)), "sample_inputs:%d" % len(sin)]
+    contract = "montecarlo.monte_carlo_integrate"
+    T = build_tensor(tspec)
+    f, fo, fshape, ftag = f_parts(spec["f"])
+    fsin = OrderedDict((n, Bint[s]) for n, (_, s) in sin.items())
+    rv = frozenset(sampled)
+    try:
+        np.random.seed(spec["npseed"])
+        with np.errstate(all="ignore"):
+            with MonteCarlo(**fsin):
+                R = Integrate(T, f, rv)
+            np.random.seed(spec["npseed"])
+            Smp = T.sample(rv, fsin.copy())
+    except NotImplementedError as e:
+        out.append(rec("declined", contract, tags, "NotImplementedError %s" % e))
+        return out
+    except Exception as e:
+        out.append(rec("fail", contract, tags + ["raises:" + type(e).__name__], "%s: %s" % (type(e).__name__, e)))
+        return out
+    all_in = OrderedDict(sin)
+    all_in.update(tin)
+    with np.errstate(all="ignore"):
+        S = materialize(Smp, all_in)
+    fin = OrderedDict((n, d) for n, d in fo.inputs.items())
+    res_in = OrderedDict((n, d) for n, d in all_in.items() if n not in sampled)
+    for n, d in fin.items():
+        if n not in sampled and n not in res_in:
+            res_in[n] = d
+
+    def fn(p):
+        tot = 0.0
+        for v in np.ndindex(*[tin[n][1] for n in sampled]):
+            q = dict(p)
+            q.update(zip(sampled, v))
+            w = S[tuple(q[n] for n in all_in)]
+            if w > -math.inf:
+                tot = tot + math.exp(w) * np.asarray(fo(q))
+        return tot
+
+    O = Orc(res_in, fn)
+    if not isinstance(R, (Tensor, Number)):
+        R = reinterpret(R)
+    if not isinstance(R, (Tensor, Number)):
+        out.append(rec("declined", contract, tags, "stays lazy (%s)" % type(R).__name__.split("[")[0]))
+        return out
+    rs = np.random.RandomState(spec["pseed"])
+    check_pointwise(R, O, contract, tags, rs, 6, out, out_shape=fshape)
+    return out
+
+
+def case_gaussian_sample(spec):
+    """C14 for Gaussian.sample: inputs/output, finite sample points, exact mass identity (integral of the sample over
+    the sampled variables == closed-form marginal for every batch element and particle), determinism, and for
+    reparametrised samples: affine in the noise with the (conditional) mean and covariance of the Gaussian."""
+    from funsor.montecarlo import extract_samples
+
+    out = []
+    rs = np.random.RandomState(spec["pseed"])
+    leaf = spec["leaf"]
+    D = Dense.from_leaf(leaf)
+    li = leaf_inputs(leaf)
+    sampled = list(spec["sampled"])
+    mode = spec["mode"]
+    tags = leaf_tags(leaf) + ["gaussian_sample", "sampled:%d/%d" % (len(sampled), len(D.reals)), "split:" + split_kind(li, sampled)]
+    contract = "Gaussian._sample"
+    blocks = D.blocks()
+    dim_a = sum(blocks[n][1] - blocks[n][0] for n in sampled)
+    if mode == "reparam":
+        sin = OrderedDict([("noise", ("real", D.bshape + (dim_a,)))])
+        tags.append("sample_inputs:reparam")
+    else:
+        sin = OrderedDict((n, ("int", int(s))) for n, s in mode)
+        tags.append("sample_inputs:%d" % len(sin))
+    fsin = OrderedDict((n, dom_to_funsor(d)) for n, d in sin.items())
+    G_ = build_leaf(leaf)
+    if not isinstance(G_, Gaussian):
+        out.append(rec("declined", contract, tags, "leaf is not a plain Gaussian"))
+        return out
+    try:
+        Dm = D.marginalize(sampled)
+    except OracleUndefined as e:
+        out.append(rec("declined", "precondition", tags, str(e)))
+        return out
+
+    def draw():
+        np.random.seed(spec["npseed"])
+        return G_.sample(frozenset(sampled), fsin.copy())
+
+    try:
+        R = draw()
+    except NotImplementedError as e:
+        out.append(rec("declined", contract, tags, "NotImplementedError %s" % e))
+        return out
+    except Exception as e:
+        out.append(rec("fail", contract, tags + ["raises:" + type(e).__name__], "rank >= dim of the sampled block, well conditioned: raised %s: %s" % (type(e).__name__, e)))
+        return out
+    all_in = OrderedDict(li)
+    for n, d in sin.items():
+        all_in[n] = d
+    if fs_inputs(R) != dict(all_in) or R.output != Real:
+        out.append(rec("fail", contract, tags + ["inputs"], "inputs %r output %r; expected inputs %r output Real" % (fs_inputs(R), R.output, dict(all_in))))
+        return out
+    # mass: integrate the sample over the sampled variables
+    Om = Dm.to_orc()
+    rest_in = OrderedDict(Om.inputs)
+    for n, d in sin.items():
+        rest_in[n] = d
+    Om2 = Orc(rest_in, Om.fn)
+    try:
+        Rm = R.reduce(ops.logaddexp, frozenset(sampled))
+    except NotImplementedError as e:
+        out.append(rec("declined", contract, tags, "reduce of the sample: NotImplementedError %s" % e))
+        return out
+    except Exception as e:
+        out.append(rec("fail", contract, tags + ["mass", "raises:" + type(e).__name__], "sample.reduce(logaddexp, sampled) raised %s: %s" % (type(e).__name__, e)))
+        return out
+    if not check_pointwise(Rm, Om2, contract, tags + ["mass"], rs, 5, out):
+        return out
+    # sample points
+    try:
+        pts = extract_samples(R)
+    except Exception as e:
+        out.append(rec("fail", "montecarlo.extract_samples", tags + ["raises:" + type(e).__name__], "%s: %s" % (type(e).__name__, e)))
+        return out
+    if set(pts) != set(sampled):
+        out.append(rec("fail", "montecarlo.extract_samples", tags + ["names"], "extracted %r, sampled %r" % (sorted(pts), sorted(sampled))))
+        return out
+    rest_reals = [(n, s) for n, s in D.reals if n not in sampled]
+    ia = np.concatenate([np.arange(*blocks[n]) for n in sampled if False] + [np.arange(*blocks[n]) for n, _ in D.reals if n in sampled]).astype(int)
+    ib = np.concatenate([np.arange(*blocks[n]) for n, _ in rest_reals] + [np.zeros(0)]).astype(int)
+    order = [n for n, _ in D.reals if n in sampled]
+
+    def sample_vec(p):
+        """concatenated sample point (declaration order of the sampled inputs) at the full point p of the other inputs"""
+        parts = []
+        for n in order:
+            pin = OrderedDict((k, d) for k, d in rest_in.items() if k in pts[n].inputs)
+            v = fs_value(pts[n], pin, p)
+            if v is None:
+                return None
+            parts.append(np.asarray(v, dtype=float).reshape(-1))
+        return np.concatenate(parts)
+
+    def cond(p):
+        b = tuple(int(p[n]) for n, _ in D.ints)
+        P = D.P[b]
+        Paa = P[np.ix_(ia, ia)]
+        xb = flat_point(rest_reals, p)
+        rhs = D.eta[b][ia] - (P[np.ix_(ia, ib)] @ xb if len(ib) else 0.0)
+        return np.linalg.solve(Paa, rhs), np.linalg.inv(Paa)
+
+    p0 = rand_point(rest_in, rs)
+    if mode == "reparam":
+        ctr = "Gaussian._sample:reparametrised"
+        rtags = tags + ["reparam"]
+        nshape = sin["noise"][1]
+        b = tuple(int(p0[n]) for n, _ in D.ints)
+
+        def at(noise):
+            q = dict(p0)
+            q["noise"] = noise
+            return sample_vec(q)
+
+        try:
+            base = at(np.zeros(nshape))
+            if base is None:
+                out.append(rec("declined", ctr, rtags, "sample point stays lazy"))
+                return out
+            mean, cov = cond(p0)
+            n1, n2 = rs.randn(*nshape), rs.randn(*nshape)
+            f1, f2, f12 = at(n1), at(n2), at(n1 + n2)
+            A = np.zeros((dim_a, dim_a))
+            for k in range(dim_a):
+                e = np.zeros(nshape)
+                e[b + (k,)] = 1.0
+                A[:, k] = at(e) - base
+        except Exception as e:
+            out.append(rec("fail", ctr, rtags + ["raises:" + type(e).__name__], "evaluating the reparametrised sample raised %s: %s" % (type(e).__name__, e)))
+            return out
+        if not close(f12 - base, (f1 - base) + (f2 - base)):
+            out.append(rec("fail", ctr, rtags + ["affine"], "sample is not affine in the noise"))
+        elif not close(f1 - base, A @ n1[b]):
+            out.append(rec("fail", ctr, rtags + ["affine", "cross_batch"], "sample of batch element %r depends on noise of other batch elements" % (b,)))
+        elif not close(base, mean):
+            out.append(rec("fail", ctr, rtags + ["mean"], "sample(noise=0) = %r, mean %r" % (base.tolist(), mean.tolist())))
+        elif not close(A @ A.T, cov):
+            out.append(rec("fail", ctr, rtags + ["covariance"], "L L' = %r, covariance %r" % ((A @ A.T).tolist(), cov.tolist())))
+        else:
+            out.append(rec("ok", ctr, rtags))
+        return out
+    # eager noise: finite points, determinism
+    v = sample_vec(p0)
+    if v is None:
+        out.append(rec("declined", "Gaussian._sample:points", tags, "sample point stays lazy"))
+        return out
+    if not np.all(np.isfinite(v)):
+        out.append(rec("fail", "Gaussian._sample:points", tags + ["support"], "non-finite sample point %r" % (v.tolist(),)))
+        return out
+    R2 = draw()
+    pts2 = extract_samples(R2)
+    pts_old, pts = pts, pts2
+    v2 = sample_vec(p0)
+    if not np.array_equal(v, v2):
+        out.append(rec("fail", "Gaussian._sample:deterministic", tags + ["determinism"], "two draws with the same numpy seed differ: %r %r" % (v.tolist(), v2.tolist())))
+    else:
+        out.append(rec("ok", "Gaussian._sample:deterministic", tags))
+    return out
+
+
+def case_mixture_sample(spec):
+    """C14 (Contraction._sample): sampling the mixture t + g over some of its integer / real inputs keeps inputs and
+    output and preserves the total mass once the sampled variables AND all real inputs are summed / integrated out
+    (for a mixture the identity does not hold pointwise in the remaining real inputs, so it is not asserted there)."""
+    out = []
+    rs = np.random.RandomState(spec["pseed"])
+    leaf = spec["leaf"]
+    D = Dense.from_leaf(leaf).add_tensor(spec["tensor"])
+    sampled = list(spec["sampled"])
+    sin = OrderedDict((n, ("int", int(s))) for n, s in spec["sample_inputs"])
+    fsin = OrderedDict((n, Bint[s]) for n, (_, s) in sin.items())
+    rnames = [n for n, _ in D.reals]
+    s_ints = [n for n in sampled if n in dict(D.ints)]
+    s_reals = [n for n in sampled if n in rnames]
+    tags = leaf_tags(leaf) + ["mixture_sample", "sampled_ints:%d" % len(s_ints), "sampled_reals:%d/%d" % (len(s_reals), len(rnames)), "sample_inputs:%d" % len(sin)]
+    contract = "Contraction._sample[mixture]"
+    try:
+        Dm = D.marginalize(rnames)
+        if s_ints:
+            Dm = Dm.reduce_int_logaddexp(s_ints)
+    except OracleUndefined as e:
+        out.append(rec("declined", "precondition", tags, str(e)))
+        return out
+    X = build_tensor(spec["tensor"]) + build_leaf(leaf)
+    try:
+        np.random.seed(spec["npseed"])
+        with np.errstate(all="ignore"):
+            R = X.sample(frozenset(sampled), fsin.copy())
+    except NotImplementedError as e:
+        out.append(rec("declined", contract, tags, "NotImplementedError %s" % e))
+        return out
+    except Exception as e:
+        if isinstance(e, ValueError) and "intentionally not implemented" in str(e):
+            # gaussian.Gaussian._sample documents this refusal (integer input of the Gaussian that the Tensor lacks)
+            out.append(rec("declined", contract, tags, "ValueError %s" % e))
+            return out
+        out.append(rec("fail", contract, tags + ["raises:" + type(e).__name__], "full-rank mixture: raised %s: %s" % (type(e).__name__, e)))
+        return out
+    all_in = OrderedDict(fs_inputs(X))
+    all_in.update(sin)
+    if fs_inputs(R) != dict(all_in) or R.output != Real:
+        out.append(rec("fail", contract, tags + ["inputs"], "inputs %r output %r; expected inputs %r output Real" % (fs_inputs(R), R.output, dict(all_in))))
+        return out
+    Om = Dm.to_orc()
+    rest = OrderedDict(Om.inputs)
+    rest.update(sin)
+    try:
+        Rm = R.reduce(ops.logaddexp, frozenset(sampled) | frozenset(rnames))
+    except NotImplementedError as e:
+        out.append(rec("declined", contract, tags, "reduce of the sample: NotImplementedError %s" % e))
+        return out
+    except Exception as e:
+        out.append(rec("fail", contract, tags + ["mass", "raises:" + type(e).__name__], "sample.reduce(logaddexp, sampled + reals) raised %s: %s" % (type(e).__name__, e)))
+        return out
+    check_pointwise(Rm, Orc(rest, Om.fn), contract, tags + ["mass"], rs, 5, out)
+    return out
+
+
+def case_mc_gaussian(spec):
+    """C14 for montecarlo.MonteCarlo with a Gaussian measure: Integrate(g, f, all reals) under the interpretation equals
+    Z * f(sample point) for the sample drawn with the same numpy seed (Z from the dense closed form)."""
+    from funsor.montecarlo import MonteCarlo, extract_samples
+
+    out = []
+    rs = np.random.RandomState(spec["pseed"])
+    leaf = spec["leaf"]
+    D = Dense.from_leaf(leaf)
+    names = [n for n, _ in D.reals]
+    sin = OrderedDict((n, ("int", int(s))) for n, s in spec["sample_inputs"])
+    fsin = OrderedDict((n, Bint[s]) for n, (_, s) in sin.items())
+    f, fo, fshape, ftag = f_parts(spec["f"])
+    tags = leaf_tags(leaf) + ["montecarlo", ftag, "sample_inputs:%d" % len(sin)]
+    contract = "montecarlo.monte_carlo_integrate[Gaussian]"
+    try:
+        Dm = D.marginalize(names)
+    except OracleUndefined as e:
+        out.append(rec("declined", "precondition", tags, str(e)))
+        return out
+    G_ = build_leaf(leaf)
+    rv = frozenset(names)
+    try:
+        np.random.seed(spec["npseed"])
+        with MonteCarlo(**fsin):
+            R = Integrate(G_, f, rv)
+        np.random.seed(spec["npseed"])
+        Smp = G_.sample(rv, fsin.copy())
+        pts = extract_samples(Smp)
+    except NotImplementedError as e:
+        out.append(rec("declined", contract, tags, "NotImplementedError %s" % e))
+        return out
+    except Exception as e:
+        out.append(rec("fail", contract, tags + ["raises:" + type(e).__name__], "%s: %s" % (type(e).__name__, e)))
+        return out
+    if not isinstance(R, (Tensor, Number)):
+        R = reinterpret(R)
+    if not isinstance(R, (Tensor, Number)):
+        out.append(rec("declined", contract, tags, "stays lazy (%s)" % type(R).__name__.split("[")[0]))
+        return out
+    res_in = OrderedDict(sin)
+    for n, sz in D.ints:
+        res_in[n] = ("int", sz)
+    for n, d in fo.inputs.items():
+        if d[0] == "int":
+            res_in[n] = d
+    Om = Dm.to_orc()
+
+    def fn(p):
+        q = dict(p)
+        for n in names:
+            pin = OrderedDict((k, d) for k, d in res_in.items() if k in pts[n].inputs)
+            q[n] = fs_value(pts[n], pin, p)
+        return math.exp(Om(p)) * np.asarray(fo(q))
+
+    check_pointwise(R, Orc(res_in, fn), contract, tags, rs, 5, out, out_shape=fshape)
+    return out
+
+
 CASES = {
     "chain": case_chain,
     "compress_rank": case_compress_rank,
     "extract_affine": case_extract_affine,
+    "reduce_program": case_reduce_program,
+    "deficient": case_deficient,
+    "integrate": case_integrate,
+    "moment_matching": case_moment_matching,
+    "delta_eval": case_delta_eval,
+    "delta_reduce": case_delta_reduce,
+    "tensor_sample": case_tensor_sample,
+    "mc_tensor": case_mc_tensor,
+    "gaussian_sample": case_gaussian_sample,
+    "mc_gaussian": case_mc_gaussian,
+    "mixture_sample": case_mixture_sample,
 }
 
 
